@@ -122,6 +122,25 @@ def run(cx):
             cx.expect_comp('EXPR', 'PartialKdTree::new:gather', b, e['pts'], '(param indices)', f'(index (param all_points) {I})', 'sub-tree point k = all_points[indices[k]], for every k in order')
     E.enc(cx, P, ('tree', 'index_map'), constructors=[f'{P}::new'])
     E.enc(cx, f'{KD}::KdTree', ('tree',), constructors=[f'{KD}::KdTree::new'])
+    # ---------------------------------------------------------------- callers of the radius search hand over a PLAIN distance
+    sites = list(cx.facts.callers_of(f'{KD}::KdTree::within')) + list(cx.facts.callers_of(f'{KD}::PartialKdTree::within'))
+    okp = True
+    bad = []
+    for s in sites:
+        a = cx.arg(s, 2)
+        sq = [t for t in subterms(a) if (t[0] == 'mul' and len(t) == 3 and t[1] == t[2] and t[1][0] != 'const') or
+              (t[0] == 'call' and (t[1] in ('f64::powi', 'f64::powf') or t[1].endswith(('norm_squared', 'distance_squared', 'magnitude_squared'))))]
+        if sq:
+            okp = False
+            bad.append(f'{s.body.name}: {show(a)[:120]}')
+    cx.ob('EXPR', 'KdTree::within:callers-plain-distance', okp and len(sites) >= 3,
+          'the wrapper squares the radius itself (KdTree::within), so no caller passes a squared quantity (x*x, powi, *_squared) as the search radius', found='; '.join(bad) or f'{len(sites)} call sites')
+    b = cx.fn('geom2::hull::ball_pivot_with_centers_2d')
+    if b:
+        w = b.calls(f'{KD}::KdTree::within')
+        okb = len(w) == 1 and match('(mul 2.0 (param radius))', cx.arg(w[0], 2)) is not None and match('(index (param points) _)', cx.arg(w[0], 1)) is not None
+        cx.ob('EXPR', 'ball_pivot:neighbourhood', okb, 'the pivot candidates are ALL points within 2*radius of the working point (a ball of that radius touching the working point '
+              'can touch nothing farther, and anything nearer can stop it)', where=b.file, found=cx.arg(w[0], 2) if w else None)
     # ---------------------------------------------------------------- Poisson disk
     b = cx.fn('common::poisson_disk::sample_poisson_disk')
     if b:
@@ -169,6 +188,18 @@ def run(cx):
                       'the three barycentric weights sum to 1 identically (polynomial identity in sqrt(r1), r2): every sample is an affine combination of the triangle corners', where=s, found=str(pz))
                 cx.ob('EXPR', 'sample_uniform:triangle', match('(call TriMesh::triangle (field shape (param self)) _)', e['t']) is not None, 'the sample is taken on a triangle of this mesh', where=s)
         cx.ob('EXPR', 'sample_uniform:normal', ok, 'each uniform sample carries the normal of the SAME triangle its point was computed on', where=b.file)
+        # the cumulative table has ONE entry per triangle, in triangle order, so that a position in the table IS a triangle id
+        bs = b.calls('slice::binary_search_by')
+        if len(bs) == 1:
+            TRIS = '(call TriMesh::triangles (field shape (param self)))'
+            e = cx.expect_comp('EXPR', 'sample_uniform:area-table', b, cx.arg(bs[0], 0), TRIS, f'(add (call Triangle::area (index {TRIS} (itervar (range 0 (len {TRIS}))))) (phi 0.0 (loop)))',
+                               'cumulative_areas[k] = area(0) + .. + area(k) for EVERY triangle k, none skipped: the position found by the search is used as the triangle id')
+            tid = [cx.arg(s2, 1) for s2 in b.calls('TriMesh::triangle')]
+            okt = len(tid) == 1 and match('(cast (call Result::unwrap_or_else (call slice::binary_search_by _ (closure * (mul (call rand::random) (phi 0.0 (loop))))) (closure *)))', tid[0]) is not None or \
+                len(tid) == 1 and match('(call Result::unwrap_or_else (call slice::binary_search_by _ (closure * (mul (call rand::random) (phi 0.0 (loop))))) (closure *))', tid[0]) is not None
+            cx.ob('EXPR', 'sample_uniform:pick', okt, 'the triangle is the table position of a draw uniform in [0, total area) (hit or insertion point alike)', where=b.file, found=tid[0] if tid else None)
+        else:
+            cx.ob('EXPR', 'sample_uniform:area-table', False, 'one search over the cumulative area table', where=b.file, found=f'{len(bs)} searches')
     b = cx.fn(f'{M}::sample_dense')
     if b:
         sp = b.calls('*SurfacePoint::new')
